@@ -16,6 +16,10 @@ theorems of `Props/C13.lean` are about those definitions at ℝ) AND corresponde
       `settings.num_gauss_hermite_locs` values (several orders, nested blocks, same class twice, objects used later under
       yet another setting): each object is exact up to degree 2N-1 of ITS construction-time N, misses exactly v^N·N! at
       degree 2N, and its expected_log_prob / log_marginal equal the N-point rule on the documented density;
+  (3c) op-then-use histories on ONE distribution object (covariance held as Diag / Dense LinearOperator, a GP posterior,
+      dense tensor, torch Normal): random sequences of marginal / log_marginal / expected_log_prob of the four likelihoods —
+      no call changes its input (mean / variance / covariance bit-identical), every call gives the value for the caller's N(m,v);
+      Bernoulli log_marginal swept over signed links in [-6, 6] (dense below -1: label against a confident prediction, v -> 0);
   (6) log_normal_cdf value and gradient vs mpmath on a dense sweep of [-40, 10] incl. the branch boundaries,
       and the generated branch formulas run at Lean `Float`.
 """
@@ -587,6 +591,206 @@ def check_construction_histories(ctx, want_driver=True, only=None):
         torch.set_default_dtype(torch.float32)
 
 
+
+# ------------------------------------------------------------------ (3c) op-then-use histories on ONE distribution object
+
+def _dist_kinds():
+    import torch
+    import gpytorch
+    from linear_operator.operators import DenseLinearOperator, DiagLinearOperator
+
+    def gp_output(m, v):
+        class _GP(gpytorch.models.ExactGP):
+            def __init__(self, x, y, lik):
+                super().__init__(x, y, lik)
+                self.mean_module = gpytorch.means.ConstantMean()
+                self.covar_module = gpytorch.kernels.ScaleKernel(gpytorch.kernels.RBFKernel())
+
+            def forward(self, x):
+                return gpytorch.distributions.MultivariateNormal(self.mean_module(x), self.covar_module(x))
+        n = m.numel()
+        x = torch.linspace(0, 1, n + 2, dtype=torch.float64).unsqueeze(-1)
+        model = _GP(x[:2], torch.tensor([0.3, -0.2], dtype=torch.float64), gpytorch.likelihoods.GaussianLikelihood()).double()
+        model.eval()
+        with torch.no_grad():
+            return model(x[2:])                      # lazily evaluated posterior covariance
+
+    def dense_cov(v):
+        n = v.numel()
+        c = 0.3 * torch.sqrt(v[:, None] * v[None, :])
+        return c - torch.diag(c.diagonal()) + torch.diag(v)
+
+    MVN = gpytorch.distributions.MultivariateNormal
+    return {
+        "mvn-diag-operator": lambda m, v: MVN(m.clone(), DiagLinearOperator(v.clone())),
+        "mvn-dense-operator": lambda m, v: MVN(m.clone(), DenseLinearOperator(dense_cov(v))),
+        "mvn-dense-tensor": lambda m, v: MVN(m.clone(), dense_cov(v)),
+        "torch-normal": lambda m, v: torch.distributions.Normal(m.clone(), v.sqrt()),
+        "gp-posterior": gp_output,
+    }
+
+
+def check_call_histories(ctx):
+    """Sequences of marginal / log_marginal / expected_log_prob calls on the SAME distribution object (lazily held
+    covariances included): no call may change its input, and every call — the first and every later one — must give the
+    value for the N(m, v) the caller constructed."""
+    import mpmath as mp
+    import numpy as np
+    import torch
+    import gpytorch
+    mp.mp.dps = 30
+    rng = ctx.rng("call-histories")
+    torch.manual_seed(rng.torch_seed())
+    torch.set_default_dtype(torch.float64)
+    L = gpytorch.likelihoods
+    code_fns = (lambda mm, s_: mm * s_ + 1, lambda mm, s_: (1 - mm) * s_ + 1)
+    try:
+        kinds = _dist_kinds()
+        for rep in range(1 if ctx.quick else 4):
+            for dk, mkdist in kinds.items():
+                for name in ("Bernoulli", "Laplace", "StudentT", "Beta"):
+                    n = 3
+                    m0 = torch.tensor([rng.uniform(-1.5, 1.5) for _ in range(n)])
+                    v0 = torch.tensor([10 ** rng.uniform(-1, 0.5) for _ in range(n)])
+                    with warnings.catch_warnings():
+                        warnings.simplefilter("ignore")
+                        dist = mkdist(m0, v0)
+                        lik = {"Bernoulli": L.BernoulliLikelihood, "Laplace": L.LaplaceLikelihood, "StudentT": L.StudentTLikelihood,
+                               "Beta": L.BetaLikelihood}[name]()
+                    par = {"noise": 10 ** rng.uniform(-0.5, 0.3), "df": rng.uniform(3, 9), "scale": 10 ** rng.uniform(0, 1)}
+                    with warnings.catch_warnings():
+                        warnings.simplefilter("ignore")
+                        if name in ("Laplace", "StudentT"):
+                            lik.noise = par["noise"]
+                        if name == "StudentT":
+                            lik.deg_free = par["df"]
+                        if name == "Beta":
+                            lik.scale = par["scale"]
+                    # what the caller constructed (read BEFORE any likelihood call; reading must not be the mutation either)
+                    mean_b = dist.mean.detach().clone()
+                    var_b = dist.variance.detach().clone()
+                    cov_b = dist.covariance_matrix.detach().clone() if hasattr(dist, "covariance_matrix") else None
+                    ms, vs = mean_b.tolist(), var_b.tolist()
+                    ys = [{"Bernoulli": float(rng.choice([0, 1])), "Laplace": ms[i] + rng.gauss(0, 1), "StudentT": ms[i] + rng.gauss(0, 1),
+                           "Beta": rng.uniform(0.1, 0.9)}[name] for i in range(n)]
+                    y_t = torch.tensor(ys)
+                    N = lik.quadrature.num_locs
+                    t_np, w_np = np.polynomial.hermite.hermgauss(N)
+                    ref_elp, ref_lm, scale_e = [], [], []
+                    for i in range(n):
+                        g = lambda f, i=i: _mp_logp(name, par, mp.mpf(ys[i]), f, code_fns)
+                        xs = [mp.sqrt(2 * mp.mpf(vs[i])) * mp.mpf(float(t)) + ms[i] for t in t_np]
+                        ws = [mp.mpf(float(w)) / mp.sqrt(mp.pi) for w in w_np]
+                        gx = [g(xx) for xx in xs]
+                        ref_elp.append(float(sum(w * a for w, a in zip(ws, gx))))
+                        scale_e.append(float(sum(w * abs(a) for w, a in zip(ws, gx))))
+                        if name == "Bernoulli":
+                            ref_lm.append(float(mp.log(mp.ncdf((2 * ys[i] - 1) * mp.mpf(ms[i]) / mp.sqrt(1 + mp.mpf(vs[i]))))))
+                        else:
+                            ref_lm.append(float(mp.log(sum(w * mp.exp(a) for w, a in zip(ws, gx)))))
+                    ref_p = [float(mp.ncdf(mp.mpf(ms[i]) / mp.sqrt(1 + mp.mpf(vs[i])))) for i in range(n)]
+                    ops = [rng.choice(["marginal", "log_marginal", "expected_log_prob"]) for _ in range(4)]
+                    if name == "Bernoulli":
+                        ops = ["marginal"] + ops          # the analytic marginal first, then everything else
+                    done = []
+                    for op in ops:
+                        rp = {"kind": "call-history", "likelihood": name, "dist": dk, "ops": done + [op], "m": ms, "v": vs, "y": ys, "par": par}
+                        ctx.case(f"K:{name}:{dk}:{'>'.join(done + [op])}", sample={"likelihood": name, "dist": dk, "ops": done + [op]})
+                        with torch.no_grad(), warnings.catch_warnings():
+                            warnings.simplefilter("ignore")
+                            try:
+                                if op == "marginal":
+                                    if dk == "torch-normal":
+                                        if name != "Bernoulli":
+                                            continue      # __call__ accepts torch Normals only with pyro; MC marginals need an MVN
+                                        out = lik.marginal(dist)
+                                    else:
+                                        out = lik(dist)
+                                    val = out.probs.tolist() if name == "Bernoulli" else None
+                                elif op == "log_marginal":
+                                    val = lik.log_marginal(y_t, dist).tolist()
+                                else:
+                                    val = lik.expected_log_prob(y_t, dist).tolist()
+                            except Exception as e:
+                                ctx.fail(f"call-history:raised:{name}", f"{name}Likelihood.{op} after {done} on a {dk} distribution raised "
+                                         f"{type(e).__name__}: {str(e)[:100]}", rp)
+                                break
+                        done.append(op)
+                        # the input distribution is untouched
+                        same = torch.equal(dist.mean.detach(), mean_b) and torch.equal(dist.variance.detach(), var_b) and \
+                            (cov_b is None or torch.equal(dist.covariance_matrix.detach(), cov_b))
+                        if not same:
+                            ctx.fail(f"call-history:mutated-input:{name}", f"{name}Likelihood.{op} (history {done}) changed its input "
+                                     f"{dk} distribution: variance {var_b.tolist()} -> {dist.variance.detach().tolist()}", rp)
+                        if val is None:
+                            continue
+                        if op == "marginal":
+                            ok = all(abs(a - b) <= 1e-12 + 8 * EPS * b for a, b in zip(val, ref_p))
+                            want = ref_p
+                        elif op == "log_marginal":
+                            ok = all(abs(a - b) <= 1e-10 * (1 + abs(b)) + 1e-12 + 16 * EPS / math.exp(min(b, 0.0))
+                                     for a, b in zip(val, ref_lm))
+                            want = ref_lm
+                        else:
+                            ok = all(abs(a - b) <= 1e-10 * (1 + sc) + (2e-3 if name == "Bernoulli" else 0.0)
+                                     for a, b, sc in zip(val, ref_elp, scale_e))
+                            want = ref_elp
+                        if not ok:
+                            ctx.fail(f"call-history:value:{name}:{op}", f"{name}Likelihood.{op} as call #{len(done)} of {done} on one {dk} "
+                                     f"distribution N(m={ms}, v={vs}) gives {val}, reference {want}", rp)
+                        if not same:
+                            break
+        ctx.count("call_history_sequences", (1 if ctx.quick else 4) * len(kinds) * 4)
+    finally:
+        torch.set_default_dtype(torch.float32)
+
+
+def check_bernoulli_log_marginal_sweep(ctx):
+    """BernoulliLikelihood.log_marginal is analytic: log Phi((2y-1) m / sqrt(1+v)) to rounding for EVERY signed link, in
+    particular for labels that disagree with a confident prediction (signed link < -1) and for v = 0."""
+    import mpmath as mp
+    import torch
+    import gpytorch
+    mp.mp.dps = 30
+    rng = ctx.rng("bernoulli-sweep")
+    torch.set_default_dtype(torch.float64)
+    try:
+        lik = gpytorch.likelihoods.BernoulliLikelihood()
+        links = [-6 + 12 * i / 120 for i in range(121)] + [rng.uniform(-2.6, -0.9) for _ in range(60 if ctx.quick else 600)] + \
+            [-1.0, -1.0000001, -0.9999999, -1.5, -2.0]
+        ms, vs, ys, ss = [], [], [], []
+        for s_ in links:
+            y = float(rng.choice([0, 1]))
+            v = rng.choice([1e-9, 10 ** rng.uniform(-2, 1), rng.uniform(0.1, 3)])
+            ms.append((2 * y - 1) * s_ * math.sqrt(1 + v))
+            vs.append(v)
+            ys.append(y)
+        dist = gpytorch.distributions.MultivariateNormal(torch.tensor(ms), torch.diag(torch.tensor(vs)))
+        with torch.no_grad():
+            lm = lik.log_marginal(torch.tensor(ys), dist).tolist()
+            pr = lik(dist).probs.tolist()
+        worst = 0.0
+        for m, v, y, got, p in zip(ms, vs, ys, lm, pr):
+            sl = (2 * y - 1) * mp.mpf(m) / mp.sqrt(1 + mp.mpf(v))
+            ref = float(mp.log(mp.ncdf(sl)))
+            ctx.case(f"B:log_marginal:{_zb(float(sl))}:{int(y)}", sample={"m": m, "v": v, "y": y, "signed_link": float(sl), "log_marginal": got})
+            err = abs(got - ref)
+            worst = max(worst, err / (1 + abs(ref)))
+            # torch evaluates Phi with absolute rounding error ~eps, i.e. log Phi with error ~eps/Phi (primitive, outside /repo)
+            p_ref = float(mp.ncdf(sl))
+            if not err <= 1e-12 + 16 * EPS / p_ref + 16 * EPS * abs(ref):
+                ctx.fail("log_marginal:BernoulliLikelihood", f"BernoulliLikelihood.log_marginal(y={y}, N({m!r},{v!r})) = {got!r}; "
+                         f"log Phi(signed link {float(sl):.6f}) = {ref!r} (|err| {err:.3e})",
+                         {"kind": "bernoulli-log-marginal", "m": m, "v": v, "y": y})
+            pref = float(mp.ncdf(mp.mpf(m) / mp.sqrt(1 + mp.mpf(v))))
+            if not abs(p - pref) <= 1e-12 + 8 * EPS * pref:
+                ctx.fail("marginal:BernoulliLikelihood", f"BernoulliLikelihood(N({m!r},{v!r})).probs = {p!r}, Phi(m/sqrt(1+v)) = {pref!r}",
+                         {"kind": "marginal", "m": m, "v": v})
+        ctx.notes["bernoulli_log_marginal_worst_rel_err"] = worst
+    finally:
+        torch.set_default_dtype(torch.float32)
+
+
 # ------------------------------------------------------------------ (4) Bernoulli marginal
 
 def check_bernoulli_marginal(ctx, lines, recs):
@@ -851,6 +1055,8 @@ def correspondence(ctx, want_driver=True):
     check_likelihood_integrals(ctx)
     lines, lrecs = [], []
     check_bernoulli_marginal(ctx, lines, lrecs)
+    check_bernoulli_log_marginal_sweep(ctx)
+    check_call_histories(ctx)
     check_conditionals(ctx, lines, lrecs)
     check_lncdf(ctx, lines, lrecs)
     if want_driver and lines:
@@ -871,6 +1077,10 @@ def replay(ctx, payload):
     import torch
     case = payload["case"]
     k = case.get("kind")
+    if k in ("call-history", "bernoulli-log-marginal"):
+        sub = _Ctx2()
+        (check_call_histories if k == "call-history" else check_bernoulli_log_marginal_sweep)(sub)
+        return not any(f["key"] == payload["key"] for f in sub.failures)
     if k == "history":
         sub = _Ctx2()
         check_construction_histories(sub, want_driver=False, only=case["program"])
